@@ -4,7 +4,7 @@ import Heathcliff.Proofs.GenScalingSpec
 import Heathcliff.Proofs.C07F
 import Heathcliff.Proofs.GenEvalCt
 import Heathcliff.Proofs.GenEvalCt3
-import Heathcliff.Proofs.GenDec4
+import Heathcliff.Proofs.GenDec11
 
 /- Property theorems only (statements verbatim; proofs are the helper lemmas of Heathcliff/Proofs). -/
 namespace HC.C07
@@ -154,5 +154,28 @@ theorem gen_budget_witness : type_of% @HC.gd_budget_witness := @HC.gd_budget_wit
 theorem gen_poly_infty_norm_unfold : type_of% @HC.gd_poly_infty_norm_unfold := @HC.gd_poly_infty_norm_unfold
 theorem normStepW_spec : type_of% @HC.gd_normStepW_spec := @HC.gd_normStepW_spec
 theorem gen_norm_witness : type_of% @HC.gd_norm_witness := @HC.gd_norm_witness
+
+/-- GENERATED loop of `poly_infty_norm` = one `normStepW` per coefficient; the whole routine = the model's norm fold of the coefficient values -/
+theorem gen_norm_loop_succ : type_of% @HC.gd_norm_loop_succ := @HC.gd_norm_loop_succ
+theorem gen_poly_infty_norm_spec : type_of% @HC.gd_poly_infty_norm_spec := @HC.gd_poly_infty_norm_spec
+/-- the counting helpers and the rounding helper of src/util/basic.rs, regenerated, = the hand models (C08) -/
+theorem gen_get_significant_uint64_count_uint_eq : type_of% @HC.gd_get_significant_uint64_count_uint_eq := @HC.gd_get_significant_uint64_count_uint_eq
+theorem gen_get_significant_bit_count_uint_eq : type_of% @HC.gd_get_significant_bit_count_uint_eq := @HC.gd_get_significant_bit_count_uint_eq
+theorem gen_add_uint_u64_inplace_eq : type_of% @HC.gd_add_uint_u64_inplace_eq := @HC.gd_add_uint_u64_inplace_eq
+theorem gen_half_round_up_uint_eq : type_of% @HC.gd_half_round_up_uint_eq := @HC.gd_half_round_up_uint_eq
+theorem gen_threshold_spec : type_of% @HC.gd_threshold_spec := @HC.gd_threshold_spec
+theorem gen_bgv_trim_eq : type_of% @HC.gd_bgv_trim_eq := @HC.gd_bgv_trim_eq
+/-- the last lines of the model's `noiseBudget` in the vocabulary of the source tie (`budgetOfBits`, `normFoldV`) -/
+theorem noiseBudget_unfold : type_of% @HC.gd_noiseBudget_unfold := @HC.gd_noiseBudget_unfold
+/-- SOURCE → MODEL: generated `invariant_noise_budget` on the composed noise = plan of the opaque steps + the model's budget of the
+    coefficient values (threshold `(Q+1)/2` with `≥`, `bits(Q) − bits(norm) − 1`, clamp at 0); with `noiseBudget_eq_spec` above: → the definition -/
+theorem gen_budget_source_spec : type_of% @HC.gd_budget_source_spec_full := @HC.gd_budget_source_spec_full
+theorem gen_budget_source_witness : type_of% @HC.gd_budget_source_witness := @HC.gd_budget_source_witness
+/-- GENERATED `dot_product_ct_sk_array` (skeleton): order of the kernel calls and flat offsets for EVERY size ≥ 2, both representations;
+    stride of the key powers = n · (prime count of the KEY level) -/
+theorem gen_dot_product_plan_eq : type_of% @HC.gd_dot_product_plan_eq := @HC.gd_dot_product_plan_eq
+theorem gen_dot_plan_witness : type_of% @HC.gd_dot_plan_witness := @HC.gd_dot_plan_witness
+theorem gen_dot_plan_witness2 : type_of% @HC.gd_dot_plan_witness2 := @HC.gd_dot_plan_witness2
+theorem gen_dot_plan_witness16 : type_of% @HC.gd_dot_plan_witness16 := @HC.gd_dot_plan_witness16
 
 end HC.C07
